@@ -1,16 +1,19 @@
-(* C04 / C02 (matrix part) / C09: the four factorisations of the kernel matrix
-   (generated full_rank, standard_low_rank_*, full_decomposition_low_rank,
-   modified_low_rank): L L^T identities, Loewner bound (K + jI) - L L^T >= 0,
-   in-sample exactness of the Cholesky-latent predictor, sparse-vs-full identity. *)
+(* C06 - predictive uncertainty is a valid covariance, consistent with the mean function.
+   Property theorems only; proofs in thm/CovThm.v.  *_covariance_*, *_mean_covariance_*, *_init_*_L/_W and
+   compute_parameter_cov_factor are regenerated from mellon/conditional.py and mellon/inference.py on every run.
+   L is the factor stored by the constructor: chol_of L (K_bb + N) with N the assembled noise (psd).
+   The joint Gram matrix of conditioning points and query points is assumed positive semi-definite (kernel_psd).
+   NOT proved here (searcher only): monotonicity of the variance under added inducing points
+   (var_monotone_in_inducing_points_partial: only the Schur bound for each set is proved); the
+   base-class wrappers (uncertainty = covariance + mean_covariance, ValueError guards) are checked by the harness. *)
 From mathcomp Require Import all_ssreflect all_fingroup all_algebra.
-From MellonV Require Import MatOps MxInst MxPsd MatGen CondThm.
+From MellonV Require Import MatOps MxInst MxPsd MatGen CondThm AffineThm FactorThm CovThm CrossThm.
 Set Implicit Arguments.
 Unset Strict Implicit.
-Unset Printing Implicit Defensive.
 Import Order.TTheory GRing.Theory Num.Theory.
 Local Open Scope ring_scope.
 
-Section Factor.
+Section C06.
 Variable F : rcfType.
 Variable cholF : forall n : nat, 'M[F]_n -> 'M[F]_n.
 Variable eigS : forall n p : nat, 'M[F]_n -> 'cV[F]_p.
@@ -18,117 +21,45 @@ Variable eigV : forall n p : nat, 'M[F]_n -> 'M[F]_(n, p).
 Variable qrQ : forall n m k : nat, 'M[F]_(n, m) -> 'M[F]_(n, k).
 Variable qrR : forall n m k : nat, 'M[F]_(n, m) -> 'M[F]_(k, m).
 Hypothesis chol_ok : chol_contract cholF.
-
 Let ops := MxOps cholF eigS eigV qrQ qrR.
 Local Existing Instance ops.
 
-(* what _eigendecomposition is assumed to return when it keeps p pairs of a
-   symmetric psd matrix W (eigh contract + the slicing proved in C10): the kept
-   pairs (s, V) together with the discarded ones (sd, Vd) form an orthogonal
-   eigen-decomposition of W; kept eigenvalues are positive, discarded ones >= 0 *)
-Definition eig_top_of n p (W : 'M[F]_n) (s : 'cV[F]_p) (V : 'M[F]_(n, p)) :=
-  exists q, exists sd : 'cV[F]_q, exists Vd : 'M[F]_(n, q),
-    [/\ W = Vd *m diagv sd *m Vd^T + V *m diagv s *m V^T,
-        (forall i, 0 <= sd i 0), (forall i, 0 < s i 0),
-        V^T *m V = 1%:M & Vd^T *m V = 0].
-Definition eig_contract := forall n p (W : 'M[F]_n), sym W -> psd W -> eig_top_of W (eigS p W) (eigV p W).
-
-(* reduced QR *)
-Definition qr_contract := forall n m k (C : 'M[F]_(n, m)),
-  qrQ k C *m qrR k C = C /\ (qrQ k C)^T *m qrQ k C = 1%:M.
-
-(* ---- small algebra ---- *)
-Lemma bcol_mulE n p (A : 'M[F]_(n, p)) (d : 'cV[F]_p) :
-  (\matrix_(i, l) (A i l * d l 0)) = A *m diagv d.
+Theorem C06_cov_sym_psd q b (Kss : 'M[F]_q) (Kbs : 'M[F]_(b, q)) (Kbb N L : 'M[F]_b) :
+  chol_of L (Kbb + N) -> sym Kss -> spd (Kbb + N) -> psd N -> psd (block_mx Kbb Kbs Kbs^T Kss) ->
+  [/\ FullCond_covariance_dF Kss Kbs L = Kss - Kbs^T *m invmx (Kbb + N) *m Kbs,
+      sym (FullCond_covariance_dF Kss Kbs L) & psd (FullCond_covariance_dF Kss Kbs L)].
 Proof.
-apply/matrixP => i l; rewrite !mxE (bigD1 l) //= big1 ?addr0; last first.
-  by move=> t tl; rewrite !mxE (negbTE tl) mulr0.
-by rewrite !mxE eqxx.
+move=> cL sK sA pN pJ; split; first exact: (cov_closed cholF eigS eigV qrQ qrR _ _ cL).
+  by apply: (cov_sym cholF eigS eigV qrQ qrR Kbs cL) => //; case: sA.
+exact: (cov_psd cholF eigS eigV qrQ qrR cL).
 Qed.
 
-Lemma bcol_divE n p (A : 'M[F]_(n, p)) (d : 'cV[F]_p) :
-  (\matrix_(i, l) (A i l / d l 0)) = A *m diagv (\col_i (d i 0)^-1).
-Proof. by rewrite -bcol_mulE; apply/matrixP => i l; rewrite !mxE. Qed.
+Theorem C06_cov_diag_agrees q b (Kss : 'M[F]_q) (Kd : 'cV[F]_q) (Kbs : 'M[F]_(b, q)) (L : 'M[F]_b) :
+  Kd = diagof Kss -> FullCond_covariance_dT Kd Kbs L = diagof (FullCond_covariance_dF Kss Kbs L).
+Proof. exact: (cov_diag_agrees cholF eigS eigV qrQ qrR). Qed.
 
-Lemma diagv_sqrt_sq p (s : 'cV[F]_p) : (forall i, 0 <= s i 0) ->
-  diagv (map_mx Num.sqrt s) *m (diagv (map_mx Num.sqrt s))^T = diagv s.
+Theorem C06_var_bounds q b (Kss : 'M[F]_q) (Kbs : 'M[F]_(b, q)) (Kbb N L : 'M[F]_b) i :
+  chol_of L (Kbb + N) -> spd (Kbb + N) -> psd N -> psd (block_mx Kbb Kbs Kbs^T Kss) ->
+  0 <= (FullCond_covariance_dF Kss Kbs L) i i <= Kss i i.
+Proof. by move=> cL sA pN pJ; apply: (var_bounds cholF eigS eigV qrQ qrR cL). Qed.
+
+(* at the conditioning points: cov = N - N (K + N)^-1 N; with N = jI the variance is in [0, j] *)
+Theorem C06_var_at_conditioning_points b (K N L : 'M[F]_b) :
+  chol_of L (K + N) -> sym K -> sym N ->
+  FullCond_covariance_dF K K L = N - N *m invmx (K + N) *m N.
+Proof. exact: (cov_at_conditioning_points cholF eigS eigV qrQ qrR). Qed.
+
+Theorem C06_var_at_conditioning_points_jitter b (K L : 'M[F]_b) j i :
+  chol_of L (K + j%:M) -> sym K -> psd K -> 0 < j ->
+  0 <= (FullCond_covariance_dF K K L) i i <= j.
 Proof.
-move=> s0; rewrite diagv_tr diagv_mul; congr diagv; apply/matrixP => i l.
-by rewrite !mxE ord1 -expr2 sqr_sqrtr.
-Qed.
-
-Lemma scaled_gram n p (V : 'M[F]_(n, p)) (s : 'cV[F]_p) : (forall i, 0 <= s i 0) ->
-  (V *m diagv (map_mx Num.sqrt s)) *m (V *m diagv (map_mx Num.sqrt s))^T = V *m diagv s *m V^T.
-Proof. by move=> s0; rewrite trmx_mul mulmxA -(mulmxA V) diagv_sqrt_sq. Qed.
-
-Lemma max_sif (a b : F) : sif (a < b) b a = Num.max a b.
-Proof. by rewrite /sif /Num.max; case: ifP. Qed.
-
-(* ---- full: L L^T = K + max(sigma^2, j) I ---- *)
-Section Full.
-Variables (n : nat) (K : 'M[F]_n) (s j : F).
-Hypothesis symK : sym K.
-Hypothesis psdK : psd K.
-Hypothesis j_gt0 : 0 < j.
-
-Lemma full_rankE : full_rank K s j = cholF (K + (Num.max (s ^+ 2) j)%:M).
-Proof. by rewrite /full_rank stabilizeE /= max_sif -expr2. Qed.
-
-Lemma full_rank_chol : chol_of (full_rank K s j) (K + (Num.max (s ^+ 2) j)%:M).
-Proof. by rewrite full_rankE; apply: chol_ok; apply: spd_jitter => //; apply: max_jitter_gt0. Qed.
-
-Lemma full_LLt : full_rank K s j *m (full_rank K s j)^T = K + (Num.max (s ^+ 2) j)%:M.
-Proof. by case: full_rank_chol. Qed.
-End Full.
-
-(* ---- inducing points: L = K_xu Lp^-T ---- *)
-Section Standard.
-Variables (n m : nat) (Kxu : 'M[F]_(n, m)) (Kuu : 'M[F]_m) (s j : F).
-Hypothesis symK : sym Kuu.
-Hypothesis psdK : psd Kuu.
-Hypothesis j_gt0 : 0 < j.
-
-Lemma standard_given (Lp : 'M[F]_m) s' j' :
-  is_lower Lp -> standard_low_rank_PM Kxu Lp s' j' = Kxu *m invmx Lp^T.
-Proof. by move=> lL; rewrite /standard_low_rank_PM /= lowpart_id // trmx_mul trmxK trmx_inv. Qed.
-
-Lemma standard_recomputed :
-  let Lp := full_rank Kuu s j in
-  standard_low_rank_PN Kxu Kuu s j = Kxu *m invmx Lp^T.
-Proof.
-move=> Lp; rewrite /standard_low_rank_PN -/Lp.
-case: (full_rank_chol s symK psdK j_gt0) => lL _ _.
-by rewrite /= lowpart_id // trmx_mul trmxK trmx_inv.
-Qed.
-
-Lemma standard_LLt :
-  let L := standard_low_rank_PN Kxu Kuu s j in
-  L *m L^T = Kxu *m invmx (Kuu + (Num.max (s ^+ 2) j)%:M) *m Kxu^T.
-Proof.
-move=> L; rewrite /L standard_recomputed trmx_mul trmx_inv trmxK.
-have cL := full_rank_chol s symK psdK j_gt0.
-by rewrite mulmxA -(mulmxA Kxu) (chol_inv cL).
-Qed.
-
-(* C02: the Cholesky-latent predictor built with the same Lp reproduces L z at the cells *)
-Lemma chol_insample c (Lp : 'M[F]_m) (z : 'M[F]_(m, c)) mu n_obs s1 j1 s2 j2 :
-  is_lower Lp ->
-  Kxu *m LandmarksCholCond_init_LM_sS_yT_uF_weights z mu n_obs Lp s1 j1
-  = standard_low_rank_PM Kxu Lp s2 j2 *m z.
-Proof.
-move=> lL; rewrite standard_given // /LandmarksCholCond_init_LM_sS_yT_uF_weights.
-by rewrite (solve_upper_tr _ _ _ _ _ _ lL) mulmxA.
-Qed.
-
-End Standard.
-
-(* ---- Loewner bound for the Nystroem projection (Schur complement) ---- *)
-Lemma psd_block_shift n m (A : 'M[F]_n) (B : 'M[F]_(n, m)) (C : 'M[F]_m) a :
-  0 <= a -> psd (block_mx A B B^T C) -> psd (block_mx (A + a%:M) B B^T C).
-Proof.
-move=> a0 pJ.
-have -> : block_mx (A + a%:M) B B^T C = block_mx A B B^T C + block_mx a%:M 0 0 0.
-  by rewrite add_block_mx !addr0.
-apply: psdD => // v; rewrite -[v]vsubmxK tr_col_mx mul_row_block mul_row_col !mulmx0 !addr0 mul0mx addr0.
-exact: (psd_scalar a0).
+move=> cL sK pK j0; have sp := spd_jitter sK pK j0.
+rewrite (cov_at_conditioning_points cholF eigS eigV qrQ qrR cL sK (sym_scalar _ _)).
+have pI := pd_inv sp; rewrite mul_scalar_mx -scalemxAl mul_mx_scalar scalerA.
+have hB : 0 <= invmx (K + j%:M) i i by have := pd_psd pI (delta_mx i 0); rewrite qfE qf_delta.
+have hU : j * invmx (K + j%:M) i i <= 1.
+  have := inv_bound sK pK j0 (delta_mx i 0); rewrite qf_delta.
+  by rewrite trmx_delta -rowE !mxE !eqxx.
+move: hB hU; move: (invmx (K + j%:M)) => B0 hB hU; rewrite !mxE eqxx mulr1n.
+apply/andP; split.
 Show. Abort. 
